@@ -297,32 +297,42 @@ Definition e_monitors_alive (s : esh) : bool := (0 <? e_spawned s) && negb (e_ct
    (`hold = false`, the repository) — or RUnlock deferred, i.e. the read lock is held across the Write (`hold = true`).
    bridge.go Close: sourceConnMu.Lock; sourceForwarder.Close() [the step that makes a blocked Write return]; Unlock; ...
    A Write to a stalled peer (f_stall) returns only once the forwarder has been closed. *)
-Record fsh := { f_readers : nat; f_w : bool; f_closed : bool }.
-Inductive fpc := WLock | WHave | WIO (held : bool) | WRel | WDone | KLock | KClose | KUnlock | KDone.
-Record fth := { f_stall : bool; f_pc : fpc }.
+(* round 5: the copy loop first waits for bandwidth tokens (CopyWithControl -> waitForTokens: limiter.WaitN(b.Ctx(), k));
+   `cancellable = true` (the repository): the wait ends with an error as soon as the bridge context is cancelled, the copy
+   loop ends; `cancellable = false`: an uncancellable sleep.  Close cancels the context (ManagerBase.Close) after the locks. *)
+Record fsh := { f_readers : nat; f_w : bool; f_closed : bool; f_cancel : bool }.
+Inductive fpc := WThrottle | WLock | WHave | WIO (held : bool) | WRel | WDone | KLock | KClose | KUnlock | KCancel | KDone.
+Record fth := { f_stall : bool;      (* the peer does not read: the Write blocks until the forwarder is closed *)
+                f_starved : bool;    (* the bucket never holds enough tokens while this chunk waits *)
+                f_pc : fpc }.
 
 Section Locks.
   Variable hold : bool.
-  Definition fwith (t : fth) (p : fpc) : fth := {| f_stall := f_stall t; f_pc := p |}.
+  Variable cancellable : bool.
+  Definition fwith (t : fth) (p : fpc) : fth := {| f_stall := f_stall t; f_starved := f_starved t; f_pc := p |}.
   Definition fstep (t : fth) (s : fsh) : fth * fsh :=
+    let upd r w c k := {| f_readers := r; f_w := w; f_closed := c; f_cancel := k |} in
     match f_pc t with
-    | WLock => if f_w s then (t, s)
-               else (fwith t WHave, {| f_readers := S (f_readers s); f_w := f_w s; f_closed := f_closed s |})
+    | WThrottle => if cancellable && f_cancel s then (fwith t WDone, s)       (* WaitN returns ctx.Err(): the copy loop breaks *)
+                   else if f_starved t then (t, s) else (fwith t WLock, s)
+    | WLock => if f_w s then (t, s) else (fwith t WHave, upd (S (f_readers s)) (f_w s) (f_closed s) (f_cancel s))
     | WHave => if hold then (fwith t (WIO true), s)
-               else (fwith t (WIO false), {| f_readers := pred (f_readers s); f_w := f_w s; f_closed := f_closed s |})
+               else (fwith t (WIO false), upd (pred (f_readers s)) (f_w s) (f_closed s) (f_cancel s))
     | WIO h => if f_stall t && negb (f_closed s) then (t, s)          (* blocked in Write: the peer does not read *)
                else (fwith t (if h then WRel else WDone), s)
-    | WRel => (fwith t WDone, {| f_readers := pred (f_readers s); f_w := f_w s; f_closed := f_closed s |})
-    | KLock => if f_w s || (0 <? f_readers s) then (t, s)
-               else (fwith t KClose, {| f_readers := f_readers s; f_w := true; f_closed := f_closed s |})
-    | KClose => (fwith t KUnlock, {| f_readers := f_readers s; f_w := f_w s; f_closed := true |})
-    | KUnlock => (fwith t KDone, {| f_readers := f_readers s; f_w := false; f_closed := f_closed s |})
+    | WRel => (fwith t WDone, upd (pred (f_readers s)) (f_w s) (f_closed s) (f_cancel s))
+    | KLock => if f_w s || (0 <? f_readers s) then (t, s) else (fwith t KClose, upd (f_readers s) true (f_closed s) (f_cancel s))
+    | KClose => (fwith t KUnlock, upd (f_readers s) (f_w s) true (f_cancel s))
+    | KUnlock => (fwith t KCancel, upd (f_readers s) false (f_closed s) (f_cancel s))
+    | KCancel => (fwith t KDone, upd (f_readers s) (f_w s) (f_closed s) true)     (* ManagerBase.Close: cancel() *)
     | WDone | KDone => (t, s)
     end.
-  Definition finit : fsh := {| f_readers := 0; f_w := false; f_closed := false |}.
+  Definition finit : fsh := {| f_readers := 0; f_w := false; f_closed := false; f_cancel := false |}.
 End Locks.
-Definition f_initial (t : fth) : bool := match f_pc t with WLock | KLock => true | _ => false end.
-Definition f_close_pending (t : fth) : bool := match f_pc t with KLock | KClose | KUnlock => true | _ => false end.
+Definition f_initial (t : fth) : bool := match f_pc t with WThrottle | WLock | KLock => true | _ => false end.
+Definition f_close_pending (t : fth) : bool := match f_pc t with KLock | KClose | KUnlock | KCancel => true | _ => false end.
+Definition f_is_closer (t : fth) : bool := match f_pc t with KLock | KClose | KUnlock | KCancel | KDone => true | _ => false end.
+Definition f_finished (t : fth) : bool := match f_pc t with WDone | KDone => true | _ => false end.
 
 (* ------------------------------------------------------------------------------------------------ *)
 (* D2. StreamProcessor: an operation queued behind the read (write) lock while Close runs            *)
@@ -488,3 +498,28 @@ Definition tstep2 (buffered : bool) (t : tpc2) (s : tsh2) : tpc2 * tsh2 :=
   | HDone | CRet _ | TFired | GOpened => (t, s)
   end.
 Definition tinit2 : tsh2 := {| t_gate := false; t_fired := false; t_waiting := true; t_sent := false |}.
+
+(* ------------------------------------------------------------------------------------------------ *)
+(* J2. ResourceManager.DisposeAll against Register calls made while it runs                          *)
+(* ------------------------------------------------------------------------------------------------ *)
+(* manager.go DisposeAll: under rm.mu take a snapshot of resources / order and reset the manager's own lists; then, outside
+   the lock, dispose order[i] for i = n-1 .. 0, looking each name up in the snapshot map.  `alias = false` (the repository):
+   the snapshot is a copy.  `alias = true`: the loop reads the manager's own backing array (rm.order = rm.order[:0]), so the
+   k-th Register made meanwhile overwrites slot k of what the loop is still going to read. *)
+Record ash := { a_arr : list nat; a_old : list nat; a_live : list nat; a_disposed : list nat }.
+Inductive apc := ALoopStart | ALoop (i : nat) | ALoopDone | AReg (id : nat) | ARegDone (id : nat).
+Definition astep (alias : bool) (t : apc) (s : ash) : apc * ash :=
+  match t with
+  | ALoopStart => (ALoop (length (a_live s)),
+                   {| a_arr := a_live s; a_old := a_live s; a_live := []; a_disposed := a_disposed s |})
+  | ALoop (S i) => let name := nth i (a_arr s) 0 in
+                   (ALoop i, if existsb (Nat.eqb name) (a_old s)
+                             then {| a_arr := a_arr s; a_old := a_old s; a_live := a_live s; a_disposed := a_disposed s ++ [name] |}
+                             else s)                                   (* resources[name] == nil: skipped *)
+  | ALoop 0 => (ALoopDone, s)
+  | AReg id => (ARegDone id, {| a_arr := if alias then upd_nth (length (a_live s)) id (a_arr s) else a_arr s;
+                                a_old := a_old s; a_live := a_live s ++ [id]; a_disposed := a_disposed s |})
+  | ALoopDone | ARegDone _ => (t, s)
+  end.
+Definition ainit (l0 : list nat) : ash := {| a_arr := []; a_old := []; a_live := l0; a_disposed := [] |}.
+Definition a_is_reg (t : apc) : bool := match t with AReg _ | ARegDone _ => true | _ => false end.
